@@ -42,6 +42,10 @@ def check(case):
         xc.disturb_construction(ref, tgt, case.get("prior_seed", 0), case["disturb"])
         applied_to = build_molecule(case["ref"])
     prior = xc.prior_call(M, case, case.get("prior_seed", 0))
+    early = case.get("prior_seed", 0) % 3
+    if early:
+        # the caller inspects - and edits - the dictionary of equivalences BEFORE applying the map
+        xc.equivalences_of(M, edit="reverse" if early == 1 else "clear")
     out = lib("map-apply", M, applied_to)
     got = positions(out)
     rpos = np.array(case["ref"]["coords"], float)
@@ -71,6 +75,7 @@ def check(case):
     if ntie:
         classes.append("tie")
     classes.append("after-other-call" if prior else "first-call")
+    classes.append("equivalences-edited-before-use" if early else "equivalences-read-after-use")
     classes.append("construction-objects:" + (case.get("disturb") or "untouched"))
     nt = len(anchors) >= 2 and len(tpos) >= 2 and (s != 1.0 or case["geom"] != "generic")
     return {"nontrivial": nt, "classes": classes}
